@@ -4,7 +4,7 @@
 Never leaves /repo modified; refuses to start on a dirty tree."""
 import json, os, subprocess, sys, glob
 ROOT = os.path.dirname(os.path.dirname(os.path.abspath(__file__)))
-REPO = os.environ.get("LIBPOLY_REPO", "/repo")
+REPO = os.environ.get("LPV_REPO", "/repo")
 def sh(*a, **k): return subprocess.run(a, capture_output=True, text=True, **k)
 dirty = [l for l in sh("git", "-C", REPO, "status", "--porcelain").stdout.splitlines() if not l.startswith("??")]
 if dirty: sys.exit("repo has local changes: " + str(dirty))
